@@ -18,6 +18,9 @@ func c15Oracle(sp *Spec, x *X, res *mcrt.Result) (string, string) {
 			return "call-blocked", fmt.Sprintf("call %s of client %d never returned", c.Op, c.Client)
 		}
 	}
+	if sp.Notifier && len(x.Notified) != 1 {
+		return "notifier-count", fmt.Sprintf("shutdown notifier delivered %d values", len(x.Notified))
+	}
 	if x.FaultStep == 0 {
 		// the fault site was not reached (all bars finished first): nothing to check beyond termination
 		if x.Debug.Len() != 0 {
@@ -112,6 +115,28 @@ func c15Programs(tier string) ([]*Spec, [][]string) {
 						tags = append(tags, t)
 					}
 				}
+			}
+		}
+	}
+	// the output starts failing at write k while the bars end normally or by cancellation: for some k the failing
+	// write is a render of the closing loop (after the container is done), not a regular cycle
+	for _, k := range []int{1, 2, 3, 4, 5} {
+		for _, how := range []string{"complete", "cancel"} {
+			for _, n := range []int{1, 2} {
+				sp := &Spec{Name: fmt.Sprintf("c15-closing-write@%d-%s-n%d", k, how, n), Refresh: "auto", Q: -1, FailWrite: k, Notifier: true}
+				for i := 0; i < n; i++ {
+					sp.Bars = append(sp.Bars, BarSpec{Total: 1, Pre: []DecorSpec{syncD(2, 1)}})
+					sp.Main = append(sp.Main, Op{K: "add", B: i})
+					if how == "complete" {
+						sp.Clients = append(sp.Clients, []Op{{K: "incr", B: i, N: 1}})
+					}
+					sp.Late = append(sp.Late, Op{K: "get", B: i})
+				}
+				if how == "cancel" {
+					sp.Clients = append(sp.Clients, []Op{{K: "cancel"}})
+				}
+				out = append(out, sp)
+				tags = append(tags, []string{"fault:write"})
 			}
 		}
 	}
